@@ -49,9 +49,11 @@ def extract_and_build(prop_modules):
             lines = text.split('\n')
             for m in re.finditer(r'Extracted\.lean:(\d+):\d+', log):
                 ln = int(m.group(1)) - 1
-                if 0 <= ln < len(lines):
+                while 0 <= ln < len(lines):          # function-level anchors span several lines: nearest `def` above
                     mm = re.match(r'def (\w+)', lines[ln])
-                    if mm: bad.add(mm.group(1))
+                    if mm:
+                        bad.add(mm.group(1)); break
+                    ln -= 1
             if not bad:
                 bad = {n for n, _, _ in extract.ANCHORS}
             text, status = extract.generate(force_fallback=bad)
